@@ -140,6 +140,24 @@ CLAIMED["C08"] = (
     "three-way correspondence, not proved; chained comparisons are proved only through the correspondence.  Two "
     "genuine defects repaired (fix: 6fb3a72, fix: 198c81d).")
 
+CLAIMED["C10"] = (
+    "Theorems (Properties/C10.v): for state values pairwise different as dict keys, whatever valid value the "
+    "model stores (of any kind, falsy included, written by the machine or from outside) current_state is the "
+    "state with that value and is_active holds for exactly that one state; whenever there is a current state "
+    "exactly one state is active; after a fired transition the field holds the target's value (storage model and "
+    "full engine model); an unmapped value through the setter raises InvalidStateValue and stores nothing; a "
+    "rejected operation stores nothing; at construction a stored value is kept, otherwise start_value (any "
+    "non-None value) selects the start state, otherwise the initial state.  Tied to /repo by random machines "
+    "with values str / \"\" / int incl. 0 and negatives / tuples / default ids, model shapes none / plain / "
+    "property-backed / class-level default / falsy object / __len__==0, random state_field, start_value valid / "
+    "invalid / falsy, a value already stored, and histories mixing events, validated writes and external writes; "
+    "after each operation getattr(model, field), current_state, every is_active and `sm.model is model` are "
+    "compared in coqc with the model.",
+    "Coq proof (storage bijection, exactly-one-active, setter validation, start selection) + differential correspondence",
+    "DESIGN.md 5 C10",
+    "Enum-member values and Django-style persistent models are not generated.  Two genuine defects repaired "
+    "(fix: 12d44f1 falsy model replaced, fix: 7e8e568 falsy start_value ignored).")
+
 PENDING_REASON = "check not built yet in this session (work in progress; see DESIGN.md 9 for the order of work)"
 
 ALL = [f"C{i:02d}" for i in range(1, 19)]
